@@ -304,3 +304,30 @@ def job_prop_names(tier, seed):
                       samples=["abc", "aB", "a", "9ab", "_ab", "a-b", "abc\n", "x_foo"])
     r.setdefault("extra", {})["excluded_known_class"] = "starts with a-z but contains other characters / too short" if K.open("C19-propname-chars") else None
     return r
+
+
+# ---------------------------------------------------------------- pattern path steps (C10): printed unquoted iff a grammar identifier
+IDENT_SPEC = z3.Concat(z3.Union(z3.Range("a", "z"), z3.Range("A", "Z"), z3.Re("_")),
+                       z3.Star(z3.Union(z3.Range("a", "z"), z3.Range("A", "Z"), z3.Range("0", "9"), z3.Re("_"))))
+_IDENT_PY = re.compile(r"[a-zA-Z_][a-zA-Z0-9_]*")
+
+
+def replay_path_step(w):
+    """quote_if_needed prints a step name bare exactly when the grammar's IdentifierWithoutHyphen admits it (a name that already starts with a
+    quote is taken as quoted by the caller: excluded)"""
+    import stix2.patterns as PT
+    if w.startswith("'"):
+        return True
+    return (PT.quote_if_needed(w) == w) == bool(_IDENT_PY.fullmatch(w))
+
+
+def job_path_step(tier, seed):
+    """C10: the set of step names printed without quotes equals the grammar's IdentifierWithoutHyphen ([a-zA-Z_][a-zA-Z0-9_]*), over ALL strings"""
+    import stix2.patterns as PT
+    try:
+        method, pat = mode_and_pattern(PT.quote_if_needed, vars(PT))
+        impl = lang_for(method, pat)
+    except NotImplementedError as e:
+        return {"verdict": "INCONCLUSIVE", "detail": str(e)}
+    return run_inclusion("path step printed bare", impl, IDENT_SPEC, "replay_path_step", pat=pat, method=method,
+                         samples=["a", "a1", "_a", "1a", "a-b", "a b", "", "a\n", "clé", "a.b", "A_9", "'a'"])
